@@ -36,7 +36,7 @@ def prepare():
 def budgets(tier):
     if tier == 'quick':
         return dict(shards=16, examples=40)
-    return dict(shards=16, examples=1500, deadline_s=3000)
+    return dict(shards=16, examples=6000, deadline_s=3000)
 
 
 # --- independent BTP-U codec ----------------------------------------------------------------
